@@ -93,6 +93,9 @@ func buildPre(sc *Scenario, recs []*recorder) *preState {
 		}
 		ps.callSpecs = append(ps.callSpecs, cs)
 	}
+	if len(sc.Trees) > 0 {
+		getBuiltinRT() // set-up is single-threaded; the tasks only read it
+	}
 	for _, tr := range sc.Trees {
 		var t ast.Expr
 		if tr.E >= 0 && tr.E < len(ps.engines) {
@@ -247,6 +250,14 @@ func runScript(ops []Op, ps *preState, rec *recorder, region bool) []string {
 		simrt.Mix(out[i])
 	}
 	return out
+}
+
+// coldBackend: engines the tasks build themselves; a fifth are set up by hand (see "extvm")
+func coldBackend(r *rng) string {
+	if r.chance(0.2) {
+		return r.pick([]string{"extvm", "extclosure"})
+	}
+	return backends[r.intn(4)]
 }
 
 func (ps *preState) treeEng(i int) int {
@@ -745,7 +756,7 @@ func genRegexScenario(r *rng, cold bool) *Scenario {
 			if r.chance(0.5) {
 				ops = append(ops, Op{K: "eval", Prog: &p})
 			} else {
-				spec := EngineSpec{backends[r.intn(4)], false, 0, false}
+				spec := EngineSpec{coldBackend(r), false, 0, false}
 				ops = append(ops, Op{K: "engine", Spec: &spec})
 				ops = append(ops, Op{K: "compile", E: len(ops) - 1, Prog: &p})
 				ops = append(ops, Op{K: "invoke", C: len(ops) - 1, Env: p.Env, EnvSh: r.chance(0.5)})
@@ -799,7 +810,7 @@ func genRegisterScenario(r *rng, cold bool) *Scenario {
 	k := 2 + r.intn(3)
 	for t := 0; t < k; t++ {
 		var ops []Op
-		spec := EngineSpec{backends[r.intn(4)], r.chance(0.3), 0, false}
+		spec := EngineSpec{coldBackend(r), r.chance(0.3), 0, false}
 		ops = append(ops, Op{K: "engine", Spec: &spec})
 		if r.chance(0.8) {
 			p := pickProg(r, spec.UserFuns)
